@@ -38,7 +38,7 @@ fn spec(a: &Args, tag: &'static str, histories: u64, steps: (usize, usize), mut 
     domain.avoid = a.avoid.clone();
     let only = if a.tag.as_deref().map(|t| t == tag).unwrap_or(true) { a.only } else { None };
     let histories = if a.only.is_some() && only.is_none() { 0 } else { histories };
-    Spec { tag, histories, steps, domain, cfg_gen, prepop, contract, only, seed: a.seed, workers: a.workers }
+    Spec { tag, histories, steps, domain, cfg_gen, prepop, contract, only, seed: a.seed, workers: a.workers, fault_permille: 0 }
 }
 
 /// Runs `f(args, index, acc)` for every index of `0..n` (or only `--only` when the tag matches) on the worker pool.
@@ -150,7 +150,16 @@ pub fn dispatch(a: &Args) -> Option<(Acc, RunMeta)> {
                     w.1 = 8;
                 }
             }
-            let acc = engine::run(&spec(a, "c08-ovl", a.n(2600, 60000), (10, 25), d, cfg_overlay_multi, true, None));
+            let mut acc = engine::run(&spec(a, "c08-ovl", a.n(2000, 50000), (10, 25), d.clone(), cfg_overlay_multi, true, None));
+            // same workload with one injected underlying failure in ~20% of the steps (copy-up, marker creation, ... fail half-way)
+            let mut faulty = spec(a, "c08-ovl-faults", a.n(1200, 30000), (10, 25), d, cfg_overlay_multi, true, None);
+            faulty.fault_permille = 400;
+            for w in faulty.domain.weights.iter_mut() {
+                if matches!(w.0, "append_file" | "copy_file" | "move_file" | "create_file") {
+                    w.1 *= 2;
+                }
+            }
+            acc.merge(engine::run(&faulty));
             Some((acc, meta(a, "untyped histories + timestamp setters on OverlayFS with 2-4 pre-populated layers (Mem/Phys/Alt/nested Ovl); recording wrapper around every filesystem of the stack: no mutating call may reach a node inside a lower layer, no mutating call during pure observers; deep state (type, bytes, created, modified) of every lower layer compared before/after every step; distinct = distinct observable states", ENGINE_ASSUMPTIONS)))
         }
         "C12" => {
@@ -212,6 +221,7 @@ pub fn dispatch(a: &Args) -> Option<(Acc, RunMeta)> {
             acc.merge(c13::run_dedicated(a));
             acc.merge(c18::run(a));
             acc.merge(c06::run(a).0);
+            acc.merge(par_run(a, "c13-async", a.n(1500, 30000), c15::hostile_async_case));
             Some((acc, meta(a, "catch_unwind + panic hook around every library call of: (1) unrestricted histories (all operations on all paths incl. root targets and root removal, wrong types, write scripts with seeks, read scripts with offsets i64::MIN..i64::MAX / u64::MAX) on all configurations; (2) handle scripts with extreme offsets on Mem/Phys/Alt/Ovl handles; (3) handles used after their file / parent directory was removed, replaced or moved; (4) PhysicalFS over directories prepared with std::fs (non-UTF-8 names, dangling symlinks, symlink loops, self links); (5) every operation on every path of the EmbeddedFS fixtures; (6) the join sweep; (7) the async port (same histories through AsyncVfsPath on a tokio current-thread executor); distinct = distinct observable states / scripts / scenarios", &["copy_dir/move_dir into the source's own subtree is never generated (documented non-termination)", "OverlayFS::new(&[]) is the documented panic and is never called", "dev profile: overflow checks and debug assertions on; thorough also runs the release profile"])))
         }
         "C15" => {
